@@ -812,8 +812,11 @@ def _standalone_once(case: dict) -> dict:
                 return "hang", run
             time.sleep(0.002)
 
+    harness_threads: list[threading.Thread] = []
+
     def guarded(index: str, op: str) -> bool:
         th = threading.Thread(target=do_op, args=(index, {"op": op}, "H", True), name=f"c18-{index}", daemon=True)
+        harness_threads.append(th)
         th.start()
         th.join(OP_WATCHDOG_S)
         if th.is_alive():
@@ -846,7 +849,9 @@ def _standalone_once(case: dict) -> dict:
     for c in client_socks:
         with contextlib.suppress(OSError):
             c.close()
-    leaked_threads = [t.name for t in threading.enumerate() if t.name.startswith("c18-")]
+    own = set(threads) | set(harness_threads)
+    leaked_threads = [t.name for t in threading.enumerate() if t.name.startswith("c18-") and t in own]
+    info["thread_objs"] = [t for t in own if t.is_alive()]
     if errors:
         raise HarnessError(f"C18 standalone harness thread failed: {errors[0]!r}")
     info["history"] = hist.view()
@@ -892,6 +897,24 @@ def _run_standalone_case(case: dict) -> Outcome:
         message = f"an operation did not return within {OP_WATCHDOG_S}s in three consecutive runs: {hangs[-1]['hang']}"
         raise Violation("hang", message, proto=case["proto"], history=hangs[-1]["history"])
     if hangs:
+        # The re-run went through, so the schedule matters.  A call that was merely slow has returned by now; a call
+        # that is *still* blocked - one or two whole runs and a further watchdog period later - is deadlocked for good
+        # ("no call deadlocks" is violated by one such schedule).
+        deadline = time.monotonic() + OP_WATCHDOG_S
+        for h in hangs:
+            for t in h.get("thread_objs", []):
+                t.join(max(0.0, deadline - time.monotonic()))
+        stuck = [(h, [t.name for t in h.get("thread_objs", []) if t.is_alive()]) for h in hangs]
+        stuck = [(h, names) for h, names in stuck if names]
+        if stuck:
+            h, names = stuck[0]
+            raise Violation(
+                "hang",
+                f"deadlock: the calls {h['hang']} never returned (threads {names} are still blocked {OP_WATCHDOG_S:.0f}s after a complete "
+                f"re-run of the same history, which did not hit the same schedule)",
+                proto=case["proto"],
+                history=h["history"],
+            )
         raise Inconclusive(f"watchdog expired in {len(hangs)} run(s) but not in a re-run: {hangs[0]['hang']}")
     if info["leaked_threads"]:
         raise HarnessError(f"C18 standalone: threads outlived the case: {info['leaked_threads']}")
